@@ -1,6 +1,8 @@
 """C15 - Euclidean-domain operations: exact division, gcd, Bezout, units, rounding."""
 import math
 import os
+import re
+
 from . import common as C
 
 RULE = ("cases = <type> <op> <operands> for types i32/i64/i128/BigInt, GaussInt and EisenInt over i64/i128/BigInt, "
@@ -262,12 +264,44 @@ def clause_sweep(ctx):
     return viol, n
 
 
+def kernel_crosscheck(ctx, limit=150):
+    """a sample of the machine-integer cases (i32/i64/i128: div, rem, div_round, gcd, lcm) evaluated by vm_compute inside
+    coqc must equal what the extracted runner printed (cross-check of extraction and the OCaml driver)"""
+    out = os.path.join(ctx.work, "corr")
+    try:
+        cases = open(os.path.join(out, "cases.txt")).read().splitlines()
+        model = open(os.path.join(out, "model.txt")).read().splitlines()
+    except OSError:
+        return {}, []
+    fn = {"div": "w_div", "rem": "w_rem", "div_round": "w_div_round", "gcd": "w_gcd", "lcm": "w_lcm"}
+    width = {"i32": 32, "i64": 64, "i128": 128}
+    sel = []
+    for c, m in zip(cases, model):
+        t = c.split()
+        if len(t) == 4 and t[0] in width and t[1] in fn and (m == "P" or re.fullmatch(r"-?\d+", m)):
+            if max(len(t[2]), len(t[3])) <= 40:
+                sel.append((t, m))
+    step = max(1, len(sel) // limit)
+    ex = []
+    for t, m in sel[::step][:limit]:
+        lhs = "%s (Some %d%%Z) (%s)%%Z (%s)%%Z" % (fn[t[1]], width[t[0]], t[2], t[3])
+        rhs = "None" if m == "P" else "Some (%s)%%Z" % m
+        ex.append((lhs, rhs))
+    return C.kernel_examples(ctx, ["From Coq Require Import ZArith.", "Require Import Yui.Model.Euclid."], ex)
+
+
 def run(ctx):
     obl = C.coq_obligations(ctx.pid, ["Extract/ExtractC15.vo"])
     extra = {}
     if ctx.thorough:
         extra.update(C.coqchk(ctx.pid))
     corr = C.correspondence(ctx, "c15", nontrivial)
+    if corr.get("ok"):
+        info, probs = kernel_crosscheck(ctx)
+        extra.update(info)
+        if probs:
+            obl["problems"] = obl.get("problems", []) + probs
+            obl["ok"] = False
     viol, n = clause_sweep(ctx)
     extra["clause_evaluations"] = n
     extra["clause_failures"] = len(viol)
